@@ -20,7 +20,9 @@ int nondet_int(void);
 double nondet_double(void);
 _Bool nondet_bool(void);
 
+#ifndef MAXN
 #define MAXN 65536ULL
+#endif
 
 // every harness ends with this: it must FAIL, otherwise the run is vacuous (DESIGN 4.1)
 #define VACUITY_CANARY() __CPROVER_assert(0, "VACUITY_CANARY")
